@@ -746,3 +746,205 @@ theorem o_run {α} (es : List (Ev (HV α))) : ∀ (subs : List Nat) (st : St McS
     simpa [run_cons, subsOf_append, final, List.append_assoc] using this
 
 end Comb
+
+namespace Comb
+
+/-! ## merge(max_concurrent): the completion rule on the delivered notifications (by counting) -/
+
+/-- how many inners arrived, how many inner completions were delivered, whether the outer completed -/
+structure McT where
+  nArr : Nat := 0
+  nComp : Nat := 0
+  outerDone : Bool := false
+
+def mcTStep {α} (t : McT) : Nat × Notif (HV α) → McT
+  | (k, .next (.obs _)) => if k = 0 then { t with nArr := t.nArr + 1 } else t
+  | (k, .completed) => if k = 0 then { t with outerDone := true } else { t with nComp := t.nComp + 1 }
+  | _ => t
+
+/-- the outer completed and every arrived inner has completed (each subscription completes at most once:
+as many completions delivered as inners arrived) -/
+def mcCountRule (t : McT) : Prop := t.outerDone = true ∧ t.nArr = t.nComp
+
+structure McB (st : St McSt) (t : McT) : Prop where
+  stp : st.s.stopped = t.outerDone
+  bal : t.nArr = t.nComp + st.s.active + st.s.queue.length
+
+theorem mc_step_bal {α} (maxc : Nat) (st : St McSt) (t : McT) (e : Ev (HV α)) (h : McInv maxc st) (hb : McB st t) :
+    McB (step (mcM (α := α) maxc) st e).1 ((accOne st e).foldl mcTStep t) := by
+  cases e with
+  | tick => exact ⟨by simpa [step, mcM, accOne] using hb.stp, by simpa [step, mcM, accOne] using hb.bal⟩
+  | dispose => exact ⟨by simpa [step, accOne] using hb.stp, by simpa [step, accOne] using hb.bal⟩
+  | src k n =>
+    by_cases hk : k ∈ st.p.live
+    · have hs := step_src_state (mcM (α := α) maxc) st k n hk
+      simp only [accOne, hk, if_true, List.foldl_cons, List.foldl_nil]
+      by_cases hk0 : k = 0
+      · subst hk0
+        cases n with
+        | next x =>
+          cases x with
+          | obs j =>
+            by_cases ha : st.s.active < maxc
+            · refine ⟨by rw [hs]; simpa [mcM, mcHandler, ha, mcTStep] using hb.stp, ?_⟩
+              rw [hs]; have := hb.bal; simp [mcM, mcHandler, ha, mcTStep]; omega
+            · refine ⟨by rw [hs]; simpa [mcM, mcHandler, ha, mcTStep] using hb.stp, ?_⟩
+              rw [hs]; have := hb.bal; simp [mcM, mcHandler, ha, mcTStep]; omega
+          | val v => exact ⟨by rw [hs]; simpa [mcM, mcHandler, mcTStep] using hb.stp,
+              by rw [hs]; simpa [mcM, mcHandler, mcTStep] using hb.bal⟩
+        | error er => exact ⟨by rw [hs]; simpa [mcM, mcHandler, mcTStep] using hb.stp,
+            by rw [hs]; simpa [mcM, mcHandler, mcTStep] using hb.bal⟩
+        | completed => exact ⟨by rw [hs]; simp [mcM, mcHandler, mcTStep],
+            by rw [hs]; simpa [mcM, mcHandler, mcTStep] using hb.bal⟩
+      · cases n with
+        | next x =>
+          cases x <;> exact ⟨by rw [hs]; simpa [mcM, mcHandler, mcTStep, hk0] using hb.stp,
+            by rw [hs]; simpa [mcM, mcHandler, mcTStep, hk0] using hb.bal⟩
+        | error er => exact ⟨by rw [hs]; simpa [mcM, mcHandler, mcTStep] using hb.stp,
+            by rw [hs]; simpa [mcM, mcHandler, mcTStep] using hb.bal⟩
+        | completed =>
+          -- a live inner completes: it held one of the `active` slots
+          have hpos : 1 ≤ st.s.active := by
+            have h1 := cnt_act_unsub_mem (β := α) st.p k hk hk0
+            have := h.le; omega
+          cases hq : st.s.queue with
+          | cons j rest =>
+            refine ⟨by rw [hs]; simpa [mcM, mcHandler, mcTStep, hk0, hq] using hb.stp, ?_⟩
+            rw [hs]; have := hb.bal; simp [mcM, mcHandler, mcTStep, hk0, hq] at this ⊢; omega
+          | nil =>
+            refine ⟨by rw [hs]; simpa [mcM, mcHandler, mcTStep, hk0, hq] using hb.stp, ?_⟩
+            rw [hs]; have := hb.bal; simp [mcM, mcHandler, mcTStep, hk0, hq] at this ⊢; omega
+    · simpa [step_src_not_live _ _ _ _ hk, accOne, hk] using hb
+
+theorem mc_run_bal {α} (maxc : Nat) (es : List (Ev (HV α))) : ∀ (st : St McSt) (t : McT), McInv maxc st → McB st t →
+    McB (final (mcM (α := α) maxc) st es) ((accepted (mcM (α := α) maxc) st es).foldl mcTStep t) ∧
+    McInv maxc (final (mcM (α := α) maxc) st es) := by
+  induction es with
+  | nil => intro st t h hb; exact ⟨hb, h⟩
+  | cons e es ih =>
+    intro st t h hb
+    have := ih _ _ (mc_step_inv maxc st e h) (mc_step_bal maxc st t e h hb)
+    simpa [final, accepted_cons, List.foldl_append] using this
+
+/-- the counters of the rule are what they say -/
+theorem mcT_counts {α} (acc : List (Nat × Notif (HV α))) : ∀ t : McT,
+    (acc.foldl mcTStep t).nArr = t.nArr + (acc.filterMap arrival).length ∧
+    ((acc.foldl mcTStep t).outerDone = true ↔ (t.outerDone = true ∨ (0, Notif.completed) ∈ acc)) := by
+  induction acc with
+  | nil => intro t; simp
+  | cons a r ih =>
+    intro t
+    obtain ⟨k, n⟩ := a
+    have ih' := ih (mcTStep t (k, n))
+    rw [List.foldl_cons]
+    refine ⟨?_, ?_⟩
+    · rw [ih'.1]
+      cases n with
+      | next x => cases x <;> by_cases hk0 : k = 0 <;> simp [mcTStep, arrival, hk0, List.filterMap_cons] <;> omega
+      | error er => simp [mcTStep, arrival, List.filterMap_cons]
+      | completed => by_cases hk0 : k = 0 <;> simp [mcTStep, arrival, hk0, List.filterMap_cons]
+    · rw [ih'.2]
+      cases n with
+      | next x => cases x <;> by_cases hk0 : k = 0 <;> simp [mcTStep, hk0]
+      | error er => simp [mcTStep]
+      | completed =>
+        by_cases hk0 : k = 0
+        · simp [mcTStep, hk0]
+        · have : ¬ (0 = k) := fun h => hk0 h.symm
+          simp [mcTStep, hk0, this]
+
+end Comb
+
+namespace Comb
+
+/-! ## concat_map: the explicit block decomposition -/
+
+/-- (inner id, element) of a delivered inner element -/
+def innerKV {α} : Nat × Notif (HV α) → Option (Nat × α)
+  | (k, .next (.val v)) => if k = 0 then none else some (k, v)
+  | _ => none
+
+/-- blocks `(inner id, its elements)` laid out one after the other -/
+def expandBlocks {α} (bs : List (Nat × List α)) : List (Nat × α) := bs.flatMap (fun b => b.2.map (fun v => (b.1, v)))
+
+theorem expandBlocks_append {α} (a b : List (Nat × List α)) : expandBlocks (a ++ b) = expandBlocks a ++ expandBlocks b := by
+  simp [expandBlocks]
+
+theorem innerVal_eq_kv {α} (acc : List (Nat × Notif (HV α))) :
+    acc.filterMap innerVal = (acc.filterMap innerKV).map (·.2) := by
+  induction acc with
+  | nil => rfl
+  | cons a r ih =>
+    obtain ⟨k, n⟩ := a
+    cases n with
+    | next x => cases x <;> by_cases hk0 : k = 0 <;> simp [innerVal, innerKV, hk0, List.filterMap_cons, ih]
+    | error e => simp [innerVal, innerKV, List.filterMap_cons, ih]
+    | completed => simp [innerVal, innerKV, List.filterMap_cons, ih]
+
+structure BInv {α} (kv : List (Nat × α)) (subs : List Nat) (st : St McSt) : Prop where
+  o : OInv subs st
+  blocks : ∃ bs : List (Nat × List α), bs.map (·.1) = subs ∧ kv = expandBlocks bs
+
+theorem b_step {α} (kv : List (Nat × α)) (subs : List Nat) (st : St McSt) (e : Ev (HV α)) (h : BInv kv subs st) :
+    BInv (kv ++ (accOne st e).filterMap innerKV) (subs ++ subsOf (step (mcM (α := α) 1) st e).2)
+      (step (mcM (α := α) 1) st e).1 := by
+  refine ⟨o_step subs st e h.o, ?_⟩
+  obtain ⟨bs, hb1, hb2⟩ := h.blocks
+  -- new subscriptions open empty blocks
+  have hnew : ∀ (s : List Nat), ∃ bs' : List (Nat × List α), bs'.map (·.1) = subs ++ s ∧ kv = expandBlocks bs' := by
+    intro s
+    refine ⟨bs ++ s.map (fun j => (j, [])), by simp [hb1, Function.comp_def], ?_⟩
+    rw [expandBlocks_append, ← hb2]
+    have : expandBlocks (s.map (fun j => (j, ([] : List α)))) = [] := by
+      induction s with
+      | nil => rfl
+      | cons a r ih => simpa [expandBlocks] using ih
+    rw [this, List.append_nil]
+  cases e with
+  | tick => simpa [accOne] using hnew _
+  | dispose => simpa [accOne] using hnew _
+  | src k n =>
+    by_cases hk : k ∈ st.p.live
+    · by_cases hkv : ∃ v, n = .next (.val v) ∧ k ≠ 0
+      · obtain ⟨v, hn, hk0⟩ := hkv
+        subst hn
+        -- an element of the live inner k: k is the most recently subscribed one, its block is the last one
+        have hlast := h.o.last k hk hk0
+        have hsubs : subsOf (step (mcM (α := α) 1) st (.src k (.next (.val v)))).2 = [] := by
+          rw [subsOf_step_src _ _ _ _ hk]; simp [mcM, mcHandler, hk0, actSubs]
+        rw [hsubs, List.append_nil]
+        simp only [accOne, hk, if_true, List.filterMap_cons, innerKV, hk0, if_false, List.filterMap_nil]
+        rw [← hb1] at hlast
+        have hne : bs ≠ [] := by intro h0; simp [h0] at hlast
+        obtain ⟨bs0, b, rfl⟩ : ∃ bs0 b, bs = bs0 ++ [b] := ⟨bs.dropLast, bs.getLast hne, (List.dropLast_concat_getLast hne).symm⟩
+        have hbk : b.1 = k := by simpa [List.getLast?_append] using hlast
+        refine ⟨bs0 ++ [(b.1, b.2 ++ [v])], by simpa using hb1, ?_⟩
+        rw [hb2, expandBlocks_append, expandBlocks_append]
+        simp [expandBlocks, hbk]
+      · have hnone : (accOne st (Ev.src k n)).filterMap innerKV = [] := by
+          simp only [accOne, hk, if_true]
+          cases n with
+          | next x =>
+            cases x with
+            | obs j => simp [innerKV]
+            | val v =>
+              by_cases hk0 : k = 0
+              · simp [innerKV, hk0]
+              · exact absurd ⟨v, rfl, hk0⟩ hkv
+          | error er => simp [innerKV]
+          | completed => simp [innerKV]
+        rw [hnone, List.append_nil]; exact hnew _
+    · rw [step_src_not_live _ _ _ _ hk]
+      simpa [accOne, hk] using hnew []
+
+theorem b_run {α} (es : List (Ev (HV α))) : ∀ (kv : List (Nat × α)) (subs : List Nat) (st : St McSt), BInv kv subs st →
+    BInv (kv ++ (accepted (mcM (α := α) 1) st es).filterMap innerKV) (subs ++ subsOf (run (mcM (α := α) 1) st es))
+      (final (mcM (α := α) 1) st es) := by
+  induction es with
+  | nil => intro kv subs st h; simpa [accepted, final] using h
+  | cons e es ih =>
+    intro kv subs st h
+    have := ih _ _ _ (b_step kv subs st e h)
+    simpa [accepted_cons, List.filterMap_append, run_cons, subsOf_append, final, List.append_assoc] using this
+
+end Comb
